@@ -275,12 +275,69 @@ Proof. reflexivity. Qed.
 (* documented in docs/arguments.rst and runner.HELP alike: 0.0.0.0, 8080, both families enabled *)
 Lemma defaults_match :
   default_host = [48;46;48;46;48;46;48] /\ default_port = 8080 /\ default_ipv4 = true /\ default_ipv6 = true
-  /\ defaults_proxy_and_sockets_empty = true /\ assign_loop_standard = true.
+  /\ defaults_proxy_and_sockets_empty = true /\ assign_loop_standard = true
+  /\ proxy_default_count = 1 /\ proxy_default_headers = [xfwd [112;114;111;116;111]].
 Proof. repeat split; reflexivity. Qed.
 
 (* asbool on strings: membership of the stripped, lower-cased text in the six words *)
 Lemma asbool_spelling : forall s, asbool (VStr s) = Ok (memstr (lower_latin1 (strip_by is_str_ws s)) spec_truthy).
 Proof. intro s. unfold asbool, py_str. rewrite truthy_match. reflexivity. Qed.
+
+(* ================= everything that is accepted is free of every listed conflict ================= *)
+Lemma dict_get_set_neq : forall {V} k k' (v : V) d, beqb k k' = false ->
+  dict_get k (dict_set k' v d) = dict_get k d.
+Proof.
+  intros V k k' v. induction d as [|[k2 v2] d IH]; intro H; cbn [dict_set dict_get].
+  - rewrite H. reflexivity.
+  - destruct (beqb k' k2) eqn:E.
+    + apply beqb_eq in E. subst k2. cbn [dict_get]. rewrite H. reflexivity.
+    + cbn [dict_get]. destruct (beqb k k2); [reflexivity|]. apply IH. exact H.
+Qed.
+
+Definition attr_sockets (a : attrs) : list sock :=
+  match dict_get k_sockets a with Some (SSocks l) => l | _ => [] end.
+Definition attr_ipv4 (a : attrs) : bool := get_bool k_ipv4 a true.
+Definition attr_ipv6 (a : attrs) : bool := get_bool k_ipv6 a true.
+
+Definition accepted_ok (e : env) (kw : kwargs) (a : attrs) : Prop :=
+  two_groups (fun n : list N => memstr n (map (@fst str value) kw)) = false
+  /\ (forall k, In k (map fst kw) -> In k (map fst params))
+  /\ ~ proxy_conflict (attr_tp_none a) (attr_tpc_none a) (attr_headers a)
+  /\ ~ socks_conflict e (attr_sockets a)
+  /\ (attr_ipv4 a || attr_ipv6 a = true ->
+      honours (attr_ipv4 a) (attr_ipv6 a) (families_value (attr_ipv4 a) (attr_ipv6 a) (has_ipv6 e))).
+
+Lemma construct_ok_sound : forall e kw a', construct e kw = Ok a' ->
+  exists a, assign_loop kw [] = Ok a /\ accepted_ok e kw a.
+Proof.
+  intros e kw a' H.
+  destruct (construct_ok_no_proxy_conflict _ _ _ H) as [a [Ha Hp]].
+  exists a. split; [exact Ha|]. unfold accepted_ok.
+  split; [|split; [|split; [exact Hp|]]].
+  - destruct (two_groups _) eqn:E; [|reflexivity].
+    rewrite (construct_refuses_conflict e kw E) in H. discriminate.
+  - intros k Hk. eapply construct_names_known; eassumption.
+  - unfold construct in H. cbv zeta in H.
+    destruct (excl _); [discriminate|]. rewrite Ha in H.
+    destruct (families_refused _ _ _) eqn:Ef; [discriminate|].
+    destruct (listen_loop _ _ _ _ _) as [w|x]; [|discriminate].
+    destruct (proxy_atoms a) as [[[[[x1 x2] x3] x4] x5] x6].
+    destruct (proxy_refused x1 x2 x3 x4 x5 x6); [discriminate|].
+    split.
+    + match type of H with
+      | (if check_sockets e ?l then _ else _) = _ => destruct (check_sockets e l) eqn:Ec; [discriminate|];
+          assert (El : l = attr_sockets a)
+      end.
+      { unfold attr_sockets. rewrite dict_get_set_neq by reflexivity.
+        destruct (proxy_headers_defaulted _ _ _ _ _ _); [rewrite dict_get_set_neq by reflexivity|
+          destruct x3; [rewrite dict_get_set_neq by reflexivity|]];
+        (destruct (proxy_count_defaulted _ _ _ _ _ _); [rewrite dict_get_set_neq by reflexivity|]); reflexivity. }
+      rewrite El in Ec. intro Hc. apply check_sockets_spec in Hc. rewrite Hc in Ec. discriminate.
+    + intro Hor. apply families_partial; [exact Hor|].
+      unfold attr_ipv4, attr_ipv6.
+      assert (D4 : default_ipv4 = true) by reflexivity. assert (D6 : default_ipv6 = true) by reflexivity.
+      rewrite D4, D6 in Ef. exact Ef.
+Qed.
 
 (* ================= middleware switch (server.py) ================= *)
 Lemma middleware_table : forall tp clear, middleware_installed tp clear = tp || clear.
@@ -382,3 +439,16 @@ Proof.
   - exists (true, SfUnix, StStream). split; [right; left; reflexivity|reflexivity].
   - exists (true, SfInet, StStream). split; [left; reflexivity|reflexivity].
 Qed.
+
+(* listen = a:1 b:2, trusted_proxy = *, trusted_proxy_headers = Forwarded : accepted *)
+Example construct_accepts_some : exists a,
+  construct {| has_ipv6 := true; has_af_unix := true |}
+    [(k_listen, VStr [97;58;49;32;98;58;50]); (k_trusted_proxy, VStr [42]);
+     (k_trusted_proxy_headers, VStr [70;111;114;119;97;114;100;101;100])] = Ok a.
+Proof. eexists. vm_compute. reflexivity. Qed.
+(* ... and with x-forwarded-for next to Forwarded: refused *)
+Example construct_refuses_some :
+  construct {| has_ipv6 := true; has_af_unix := true |}
+    [(k_trusted_proxy, VStr [42]);
+     (k_trusted_proxy_headers, VStr ([70;111;114;119;97;114;100;101;100;32] ++ xfwd [102;111;114]))] = Exn ValueError.
+Proof. vm_compute. reflexivity. Qed.
